@@ -161,6 +161,11 @@ def replay(case, acc):
     check_tree(acc, (), case['text'], c[1], make_preds(case.get('kinds', ['Identifier']), case.get('value', 'a')))
 
 
+from harness.shrink import text_shrinker  # noqa: E402
+shrink = text_shrinker(replay, 'text')
+
+
+
 def plan(tier, seed):
     n = 2400 if tier == 'quick' else 100000
     shards = [{'name': 'g1-%d' % k, 'kind': 'g1', 'n': n // 16, 'hseed': seed * 1000 + k} for k in range(16)]
